@@ -3,6 +3,8 @@ package drivers
 import (
 	"encoding/json"
 	"fmt"
+	"github.com/moby/patternmatcher"
+	"io"
 	"math/rand"
 	"os"
 	"path/filepath"
@@ -107,6 +109,9 @@ func runSyncInput(c *Ctx, caseNo int, in syncInput) ([]vt.Ev, *SyncResult, error
 
 // Sync drives real Send against real Receive over trees (C01 and friends).
 func Sync(c *Ctx) error {
+	if c.What == "filtered" {
+		return syncFiltered(c)
+	}
 	if c.Replay != "" {
 		in := &syncInput{}
 		if err := vt.ReplayInput(c.Replay, in); err != nil {
@@ -142,6 +147,9 @@ func Sync(c *Ctx) error {
 	}
 	if c.What == "sched" {
 		return syncSchedules(c)
+	}
+	if c.What == "filtered" {
+		return syncFiltered(c)
 	}
 	var inputs []syncInput
 	uni := SmallUniverse()
@@ -524,6 +532,268 @@ func filterByName(name string) fsutil.FilterFunc {
 				st.Mode &^= 0222
 			}
 			return true
+		}
+	}
+	return nil
+}
+
+// ---------------------------------------------------------------------------
+// filtered views (C11)
+
+type filteredInput struct {
+	Src    model.Tree    `json:"src"`
+	Stack  [][3][]string `json:"stack"` // per layer: include, exclude, followPaths
+	CapS   int           `json:"capS"`
+	CapR   int           `json:"capR"`
+	Origin string        `json:"origin"`
+}
+
+func runFiltered(c *Ctx, caseNo int, in filteredInput) ([]vt.Ev, *SyncResult, error) {
+	base := filepath.Join(c.Work, fmt.Sprintf("fcase%d", caseNo))
+	src, dst := filepath.Join(base, "src"), filepath.Join(base, "dst")
+	defer disk.RemoveAll(base)
+	if err := os.MkdirAll(src, 0755); err != nil {
+		return nil, nil, err
+	}
+	if err := os.MkdirAll(dst, 0755); err != nil {
+		return nil, nil, err
+	}
+	if err := disk.Materialise(src, in.Src); err != nil {
+		return nil, nil, err
+	}
+	snap, err := disk.Snapshot(src, true)
+	if err != nil {
+		return nil, nil, err
+	}
+	var f fsutil.FS
+	f, err = fsutil.NewFS(src)
+	if err != nil {
+		return nil, nil, err
+	}
+	// naive and incremental selection of every entry of the full tree by the whole stack
+	naive := make([]bool, len(snap))
+	incr := make([]bool, len(snap))
+	for i := range snap {
+		naive[i], incr[i] = true, true
+	}
+	patternOnly := true
+	for _, layer := range in.Stack {
+		opt := &fsutil.FilterOpt{IncludePatterns: layer[0], ExcludePatterns: layer[1], FollowPaths: layer[2]}
+		if len(layer[2]) > 0 {
+			patternOnly = false
+		}
+		nf, err := fsutil.NewFilterFS(f, opt)
+		if err != nil {
+			return nil, nil, nil // invalid pattern: not a case
+		}
+		f = nf
+		paths := make([]string, len(snap))
+		for i := range snap {
+			paths[i] = snap[i].Path
+		}
+		if len(layer[2]) == 0 {
+			for _, pl := range [][]string{layer[0]} {
+				if len(pl) > 0 {
+					pm, err := patternmatcher.New(pl)
+					if err != nil {
+						return nil, nil, nil
+					}
+					iv, err := incrVerdicts(pl, snap)
+					if err != nil {
+						return nil, nil, nil
+					}
+					for i, p := range paths {
+						m, _ := pm.MatchesOrParentMatches(p)
+						naive[i] = naive[i] && m
+						incr[i] = incr[i] && iv[i]
+					}
+				}
+			}
+			if len(layer[1]) > 0 {
+				pm, err := patternmatcher.New(layer[1])
+				if err != nil {
+					return nil, nil, nil
+				}
+				iv, err := incrVerdicts(layer[1], snap)
+				if err != nil {
+					return nil, nil, nil
+				}
+				for i, p := range paths {
+					m, _ := pm.MatchesOrParentMatches(p)
+					naive[i] = naive[i] && !m
+					incr[i] = incr[i] && !iv[i]
+				}
+			}
+		}
+	}
+	var selDiff [][][]int
+	for i := range snap {
+		if naive[i] != incr[i] {
+			selDiff = append(selDiff, vt.P(snap[i].Path))
+		}
+	}
+	if selDiff == nil {
+		selDiff = [][][]int{}
+	}
+	content := func(p string) ([]byte, bool) {
+		rc, err := f.Open(p)
+		if err != nil {
+			return nil, false
+		}
+		defer rc.Close()
+		b, err := io.ReadAll(rc)
+		return b, err == nil
+	}
+	res, err := RunSync(caseNo, src, dst, SyncOpts{Mode: "dirty", Differ: "metadata", CapS2R: in.CapS, CapR2S: in.CapR, SrcFS: f,
+		Content: func(p string) ([]byte, bool) {
+			if e := snap.Find(p); e == nil || e.Type != "file" {
+				return nil, false
+			}
+			return content(p)
+		},
+		Extra: vt.Ev{"input": vt.Opaque(in), "src": snap.Ev(), "origin": in.Origin, "filtered": true, "patternOnly": patternOnly, "selDiff": selDiff}})
+	if err != nil {
+		return nil, nil, err
+	}
+	// Open through the same filtered view, for every regular file of the unfiltered tree
+	var opens []vt.Ev
+	for _, e := range snap {
+		if e.Type != "file" {
+			continue
+		}
+		b, ok := content(e.Path)
+		cid := ""
+		if ok {
+			cid = model.ContentID(b)
+		}
+		opens = append(opens, vt.Ev{"ev": "Open", "case": caseNo, "p": vt.P(e.Path), "ok": ok, "c": cid, "want": e.Content})
+	}
+	evs := res.Events
+	end := evs[len(evs)-1]
+	evs = append(append(evs[:len(evs)-1:len(evs)-1], opens...), end)
+	return evs, res, nil
+}
+
+func syncFiltered(c *Ctx) error {
+	if c.Replay != "" {
+		in := &filteredInput{}
+		if err := vt.ReplayInput(c.Replay, in); err != nil {
+			return err
+		}
+		Regen(in.Src)
+		evs, _, err := runFiltered(c, c.NextCase(), *in)
+		if err != nil {
+			return err
+		}
+		for _, e := range evs {
+			c.Out.Emit(e)
+		}
+		return nil
+	}
+	n := 250
+	if c.Thorough() {
+		n = 5000
+	}
+	c.Stats.Rule = "one case = real Send over a stack of 1-2 NewFilterFS layers into real Receive, plus Open probes for every regular file of the unfiltered tree; non-trivial = a hard-link group straddles the filter (some member reported, some hidden); distinct by (tree, filter stack)"
+	for i := 0; i < n; i++ {
+		t := filterTree(c)
+		// hard-link groups spread over directories
+		var files []int
+		for k := range t {
+			if t[k].Type == "file" {
+				files = append(files, k)
+			}
+		}
+		for g := 0; g < 2 && len(files) >= 3; g++ {
+			a := files[c.Rand.Intn(len(files))]
+			if t[a].Group != 0 {
+				continue
+			}
+			t[a].Group = 500 + g
+			m := 1 + c.Rand.Intn(3)
+			for k := 0; k < m; k++ {
+				b := files[c.Rand.Intn(len(files))]
+				if b != a && t[b].Group == 0 {
+					p := t[b].Path
+					t[b] = t[a]
+					t[b].Path = p
+				}
+			}
+		}
+		// a symlink or two for follow-paths
+		if c.Rand.Intn(3) == 0 && len(t) > 0 {
+			tg := t[c.Rand.Intn(len(t))].Path
+			if t.Find("lnk") == nil {
+				t = append(t, model.Entry{Path: "lnk", Type: "symlink", Perm: 0777, Link: tg, Mtime: uniqueMtime()})
+				t.Sort()
+			}
+		}
+		in := filteredInput{Src: t, CapS: []int{0, 4, 64}[c.Rand.Intn(3)], CapR: []int{0, 4, 64}[c.Rand.Intn(3)], Origin: "filtered"}
+		layers := 1 + c.Rand.Intn(2)
+		for l := 0; l < layers; l++ {
+			var inc, exc, fol []string
+			for k := 0; k < c.Rand.Intn(3); k++ {
+				p := randomPattern(c, t)
+				// the [X, !ancestor] shapes are the known incremental-matcher finding; keep most cases clear of negations
+				if strings.HasPrefix(p, "!") && c.Rand.Intn(3) != 0 {
+					p = p[1:]
+				}
+				inc = append(inc, p)
+			}
+			for k := 0; k < c.Rand.Intn(3); k++ {
+				p := randomPattern(c, t)
+				if strings.HasPrefix(p, "!") && c.Rand.Intn(3) != 0 {
+					p = p[1:]
+				}
+				exc = append(exc, p)
+			}
+			if c.Rand.Intn(5) == 0 && t.Find("lnk") != nil {
+				fol = []string{"lnk"}
+			}
+			in.Stack = append(in.Stack, [3][]string{inc, exc, fol})
+		}
+		evs, res, err := runFiltered(c, c.NextCase(), in)
+		if err != nil {
+			return err
+		}
+		if evs == nil {
+			c.Stats.Count("invalidPatternSkipped", 1)
+			continue
+		}
+		for _, e := range evs {
+			c.Out.Emit(e)
+		}
+		// straddling group?
+		reported := map[string]bool{}
+		for _, p := range res.Conn.StatLog() {
+			reported[p] = true
+		}
+		straddle := false
+		byGroup := map[int][2]int{}
+		for _, e := range t {
+			if e.Group != 0 {
+				v := byGroup[e.Group]
+				if reported[e.Path] {
+					v[0]++
+				} else {
+					v[1]++
+				}
+				byGroup[e.Group] = v
+			}
+		}
+		for _, v := range byGroup {
+			if v[0] > 0 && v[1] > 0 {
+				straddle = true
+			}
+		}
+		c.Stats.Case(vt.Opaque(in), straddle)
+		c.Stats.Count("cases", 1)
+		if res.SOK && res.ROK {
+			c.Stats.Count("bothOK", 1)
+		}
+		if straddle {
+			c.Stats.Count("groupStraddlesFilter", 1)
+			c.Stats.Sample(vt.Ev{"tree": pathsOf(t), "stack": in.Stack, "reported": len(reported)})
 		}
 	}
 	return nil
